@@ -498,3 +498,143 @@ func registerMisc(t map[string]intrinsic) {
 		return Str{}, nil
 	}
 }
+
+// ---- reflect (the handful of operations pack.go's provenance check uses) ----
+
+// ReflType / ReflValue are the payloads behind reflect.Type / reflect.Value.
+type ReflType struct{ T types.Type }
+type ReflValue struct{ I Iface }
+
+func (ex *Exec) rtypePtr() types.Type {
+	if t, ok := ex.typeIDs["reflect.*rtype"]; ok {
+		return t
+	}
+	for _, p := range ex.Prog.AllPackages() {
+		if p.Pkg.Path() == "reflect" {
+			if tn := p.Type("rtype"); tn != nil {
+				t := types.NewPointer(tn.Type())
+				ex.typeIDs["reflect.*rtype"] = t
+				return t
+			}
+		}
+	}
+	panic(engineErr("reflect package not loaded"))
+}
+
+func reflKind(t types.Type) uint64 {
+	switch u := under(t).(type) {
+	case *types.Basic:
+		switch u.Kind() {
+		case types.Bool:
+			return 1
+		case types.Int:
+			return 2
+		case types.Int8:
+			return 3
+		case types.Int16:
+			return 4
+		case types.Int32:
+			return 5
+		case types.Int64:
+			return 6
+		case types.Uint:
+			return 7
+		case types.Uint8:
+			return 8
+		case types.Uint16:
+			return 9
+		case types.Uint32:
+			return 10
+		case types.Uint64:
+			return 11
+		case types.Uintptr:
+			return 12
+		case types.Float32:
+			return 13
+		case types.Float64:
+			return 14
+		case types.String:
+			return 24
+		case types.UnsafePointer:
+			return 26
+		}
+	case *types.Array:
+		return 17
+	case *types.Chan:
+		return 18
+	case *types.Signature:
+		return 19
+	case *types.Interface:
+		return 20
+	case *types.Map:
+		return 21
+	case *types.Pointer:
+		return 22
+	case *types.Slice:
+		return 23
+	case *types.Struct:
+		return 25
+	}
+	return 0
+}
+
+func init() {
+	t := intrinsicTable
+	t["reflect.TypeOf"] = func(ex *Exec, caller *frame, fn *ssa.Function, args []Value) (Value, *goPanic) {
+		i := args[0].(Iface)
+		if i.T == nil {
+			return Iface{}, nil
+		}
+		return Iface{T: ex.rtypePtr(), V: ReflType{i.T}}, nil
+	}
+	t["(*reflect.rtype).Kind"] = func(ex *Exec, caller *frame, fn *ssa.Function, args []Value) (Value, *goPanic) {
+		return ex.C.Const(64, reflKind(args[0].(ReflType).T)), nil
+	}
+	t["(*reflect.rtype).Elem"] = func(ex *Exec, caller *frame, fn *ssa.Function, args []Value) (Value, *goPanic) {
+		rt := args[0].(ReflType).T
+		switch u := under(rt).(type) {
+		case *types.Pointer:
+			return Iface{T: ex.rtypePtr(), V: ReflType{u.Elem()}}, nil
+		case *types.Slice:
+			return Iface{T: ex.rtypePtr(), V: ReflType{u.Elem()}}, nil
+		case *types.Array:
+			return Iface{T: ex.rtypePtr(), V: ReflType{u.Elem()}}, nil
+		case *types.Map:
+			return Iface{T: ex.rtypePtr(), V: ReflType{u.Elem()}}, nil
+		}
+		return nil, &goPanic{msg: "reflect: Elem of invalid type"}
+	}
+	t["(*reflect.rtype).PkgPath"] = func(ex *Exec, caller *frame, fn *ssa.Function, args []Value) (Value, *goPanic) {
+		if n, ok := args[0].(ReflType).T.(*types.Named); ok && n.Obj().Pkg() != nil {
+			return ex.mkStr(n.Obj().Pkg().Path()), nil
+		}
+		return Str{}, nil
+	}
+	t["(*reflect.rtype).String"] = func(ex *Exec, caller *frame, fn *ssa.Function, args []Value) (Value, *goPanic) {
+		return ex.mkStr(args[0].(ReflType).T.String()), nil
+	}
+	t["reflect.ValueOf"] = func(ex *Exec, caller *frame, fn *ssa.Function, args []Value) (Value, *goPanic) {
+		return ReflValue{args[0].(Iface)}, nil
+	}
+	t["(reflect.Value).IsNil"] = func(ex *Exec, caller *frame, fn *ssa.Function, args []Value) (Value, *goPanic) {
+		i := args[0].(ReflValue).I
+		switch v := i.V.(type) {
+		case Ptr:
+			return ex.C.Bool(v.Obj == nil), nil
+		case Slice:
+			return ex.C.Bool(v.IsNil()), nil
+		case MapRef:
+			return ex.C.Bool(v.Obj == nil), nil
+		case ChanRef:
+			return ex.C.Bool(v.Obj == nil), nil
+		case *Closure:
+			return ex.C.Bool(v == nil), nil
+		case Iface:
+			return ex.C.Bool(v.T == nil), nil
+		}
+		return nil, &goPanic{msg: "reflect: call of reflect.Value.IsNil on non-nillable value"}
+	}
+	for _, n := range []string{"reflect.TypeOf", "(*reflect.rtype).Kind", "(*reflect.rtype).Elem", "(*reflect.rtype).PkgPath", "reflect.ValueOf", "(reflect.Value).IsNil"} {
+		pureIntrinsics[n] = true
+	}
+}
